@@ -4,7 +4,7 @@
    complexes(). *)
 From Coq Require Import String ZArith Bool Arith List.
 From SV Require Import Names NamesFacts ListFacts Rep Fresh Complex Atomic RepInv Homology Filtration FiltProofs Shapes SnapProofs FiltClosed.
-From SV Require Closed ClosedReach FiltCinv FiltBook.
+From SV Require Closed ClosedReach FiltCinv FiltBook FiltCopy.
 From Coq Require Sorted.
 Import ListNotations.
 
@@ -110,3 +110,10 @@ Proof.
   destruct (FiltBook.addSimplex_binv f fs id attr f' x Hm Hb H) as [[_ K]|[_ K]]; [now left|now right].
 Qed.
 Print Assumptions C13_addSimplex_tables_never_fail.
+
+(* Filtration.copy(): whatever its outcome, what it returns satisfies both invariants -- a copy is a filtration in
+   the sense of every theorem above (monotone views closed under faces, consistent bookkeeping, ascending indices) *)
+Theorem C13_a_copy_is_a_legal_filtration :
+  forall hp f uid orders hp' c x, f_copy hp f uid orders = (hp', c, x) -> minv c /\ FiltBook.binv c.
+Proof. exact FiltCopy.f_copy_invariants. Qed.
+Print Assumptions C13_a_copy_is_a_legal_filtration.
